@@ -47,6 +47,8 @@ def gen_world(rng, npels=None, fault_rate=None):
         targets.append(("M", 0x2C00))            # shipped I/O drawer plugin (real code)
     if rng.random() < 0.15:
         targets.append(("O", 0xE500))            # shipped hw-diags plugin (real code)
+    if rng.random() < 0.6:
+        targets += [("O", 0x2000)] * 2           # BMC built-in formats (json / text / cbor / custom)
     npels = npels or rng.randint(2, 5)
     pels = []
     eids = set()
